@@ -39,10 +39,46 @@ def unchanged(obj, before):
     return same_nt(snap_nt(obj), before)
 
 
-def body(name, ci, mech, d, s, n):
+# priority order: the quick tier explores the first FJ+1 follow-ups of a family, the thorough tier all of them
+FOLLOW_CORE = ("modifier", "force_index", "distinct_on", "select", "orderby", "returning", "where", "groupby", "join_on",
+               "insert", "columns", "do_update", "set", "so_union", "so_orderby", "ct_columns", "ct_unique", "case_when",
+               "agg_filter", "an_over", "an_orderby", "with_", "for_update", "rollup")
+
+
+def follow_ups(cname):
+    """Container-extending methods of the same receiver family (rich and minimal receivers share a family)."""
+    fam = c01.CASES[cname][0]
+    fams = {fam}
+    for a, b in c01.MINIMAL.items():
+        if a is fam or b is fam:
+            fams.update((a, b))
+    out = []
+    for nm in c01.CASE_NAMES:
+        base = nm[4:] if nm.startswith("min:") else nm
+        if nm.startswith("min:"):
+            continue
+        if c01.CASES[nm][0] in fams and base in FOLLOW_CORE:
+            out.append(nm)
+    out.sort(key=lambda nm: FOLLOW_CORE.index(nm))
+    return out
+
+
+def body(name, ci, mech, d, s, n, fj=0):
     cname = c01.CASE_NAMES[ci]
     factory, call = c01.CASES[cname]
     factory = c01.fresh(factory)
+    fups = follow_ups(cname)
+    if fups:
+        fname = fups[0]
+        for i in range(len(fups)):
+            if fj == i:
+                fname = fups[i]
+        if not c01.allowed(fname, d):
+            return SKIP
+        fcall = c01.CASES[fname][1]
+        note("follow_up", fname)
+    else:
+        fcall = call
     leaves_symbolic = mech < 2
     try:
         X = call(factory(d), s, n, 1 if leaves_symbolic else 2)
@@ -68,10 +104,24 @@ def body(name, ci, mech, d, s, n):
     sd = snap_nt(D)
     if ok and not same_structure(D, X):
         ok, why = False, "duplicate differs structurally from the original"
+    if ok and not leaves_symbolic and hasattr(X, "get_sql"):
+        # concrete instance: compare the renderings themselves under the six contexts (outside the tracer)
+        with _NoTracing():
+            for dd in range(ND):
+                try:
+                    a = X.get_sql(dctx(dd))
+                except Exception as e:
+                    a = "EXC " + type(e).__name__
+                try:
+                    b = D.get_sql(dctx(dd))
+                except Exception as e:
+                    b = "EXC " + type(e).__name__
+                if a != b:
+                    ok, why = False, "duplicate renders differently under " + DNAMES[dd]
     if ok:
         # builder call on the duplicate must not show on the original, and vice versa
         try:
-            call(D, s, n, 3)
+            fcall(D, s, n, 3)
         except Exception as e:
             note("guard_dup", type(e).__name__)
         if not unchanged(X, sx):
@@ -80,7 +130,7 @@ def body(name, ci, mech, d, s, n):
             ok, why = False, "a builder call on the duplicate changed the duplicate itself"
     if ok:
         try:
-            call(X, s, n, 3)
+            fcall(X, s, n, 3)
         except Exception as e:
             note("guard_orig", type(e).__name__)
         if not unchanged(D, sd):
@@ -93,23 +143,26 @@ def body(name, ci, mech, d, s, n):
 @harness(
     prop="C15",
     cubes={"ci": range(len(c01.CASE_NAMES)), "mech": range(4)},
-    bounds={"quick": {"L": 2, "N": 99}, "thorough": {"L": 3, "N": 999}},
-    timeout={"quick": 120, "thorough": 600},
-    witness=[dict(ci=c01.CASE_NAMES.index("where"), mech=1, d=2, s="x'", n=1),
-             dict(ci=c01.CASE_NAMES.index("so_union"), mech=2, d=0, s="a", n=1),
-             dict(ci=c01.CASE_NAMES.index("table_as_"), mech=3, d=0, s="a", n=1)],
+    bounds={"quick": {"L": 1, "N": 9, "FJ": 1}, "thorough": {"L": 2, "N": 99, "FJ": 12}},
+    timeout={"quick": 200, "thorough": 900},
+    witness=[dict(ci=c01.CASE_NAMES.index("where"), mech=1, d=2, s="x'", n=1, fj=0),
+             dict(ci=c01.CASE_NAMES.index("so_union"), mech=2, d=0, s="a", n=1, fj=1),
+             dict(ci=c01.CASE_NAMES.index("table_as_"), mech=3, d=0, s="a", n=1, fj=0)],
     doc="every C01 case result (113 object graphs x 6 dialect classes) x copy.copy / copy.deepcopy / pickle protocol 2 / "
-        "highest; structure preserved; follow-up builder call (same method, fresh symbolic arguments) on either side does "
-        "not change the other",
+        "highest; structure preserved; follow-up builder call (any container-extending method of the family, symbolic "
+        "selector, fresh symbolic arguments) on either side does not change the other",
 )
-def c15_dup(ci: int, mech: int, d: int, s: str, n: int) -> int:
+def c15_dup(ci: int, mech: int, d: int, s: str, n: int, fj: int) -> int:
     """
-    bound: len(s) <= L and 0 <= n <= N and 0 <= d <= 5
+    bound: len(s) <= L and 0 <= n <= N and 0 <= d <= 5 and 0 <= fj <= FJ
     """
     d = c01.pin_d(d)
     if not c01.allowed(c01.CASE_NAMES[ci], d):
         return SKIP
-    return body("c15_dup", ci, mech, d, s, n)
+    nf = len(follow_ups(c01.CASE_NAMES[ci]))
+    if fj >= max(nf, 1):
+        return SKIP
+    return body("c15_dup", ci, mech, d, s, n, fj)
 
 
 def extra_graph(k, s):
@@ -129,19 +182,25 @@ def extra_graph(k, s):
     if k == 6:
         return Table("t").for_(Field("sys").between(s, "z"))
     if k == 7:  # a NOT wrapper on which a dynamically forwarded method was already called once
-        n = Not(t.a == s)
-        n.like("x%")
-        n.isin([1, 2])
+        n = Not(Field(s, table=t))
+        n.has_key("k")          # JSON operators live on Field only: looked up through Not.__getattr__
+        n.get_text_value("x")
         return n
     if k == 8:  # a table / schema whose dynamic attribute lookup was used before
         tb = Table("t", schema="s")
         tb.some_column
         tb["other"]
         return tb
+    if k == 9:  # module-level type constants inside the graph (identity must not matter after a deep copy)
+        from pypika_tortoise import functions as fn
+        from pypika_tortoise.enums import SqlTypes
+        t2 = Table("t")
+        return MySQLQuery.from_(t2).select(fn.Cast(t2.a, SqlTypes.VARCHAR), fn.Cast(t2.b, SqlTypes.INTEGER),
+                                           fn.Cast(Field(s), SqlTypes.VARCHAR(12)))
     raise AssertionError(k)
 
 
-NEXTRA = 9
+NEXTRA = 10
 
 
 @harness(
@@ -167,16 +226,16 @@ def c15_extra(k: int, mech: int, s: str) -> int:
         return verdict(False, "c15_extra", k=k, mech=mech, s=s)
     ok = D is not X and same_structure(D, X) and same_nt(snap_nt(X), sx)
     if ok and hasattr(X, "get_sql"):
-        ok = X.get_sql(dctx(0)) == D.get_sql(dctx(0)) and X.get_sql(dctx(1)) == D.get_sql(dctx(1))
+        for dd in range(ND):
+            if not (X.get_sql(dctx(dd)) == D.get_sql(dctx(dd))):
+                ok = False
     if ok and k == 7:
         # forwarded methods of the duplicate work on the duplicate's own term
-        a = X.like("q").get_sql(dctx(0))
-        b = D.like("q").get_sql(dctx(0))
-        ok = a == b
+        ns = DEFAULT_SQL_CONTEXT.copy(with_namespace=True)
+        ok = X.has_key("q").get_sql(ns) == D.has_key("q").get_sql(ns)
         if ok:
             d2 = D.replace_table(Table("t"), Table("zz"))
-            ok = d2.like("q").get_sql(DEFAULT_SQL_CONTEXT.copy(with_namespace=True)) == \
-                Not(Table("zz").a == s).like("q").get_sql(DEFAULT_SQL_CONTEXT.copy(with_namespace=True))
+            ok = d2.has_key("q").get_sql(ns) == Not(Field(s, table=Table("zz"))).has_key("q").get_sql(ns)
     if ok and k >= 4 and k != 7:
         # a builder call on the duplicate leaves the original alone
         D.as_("zz")
